@@ -110,6 +110,8 @@ func specID(dir, fsType string) mountEntryId { return mountEntryId{dir, fsType} 
 //@ define mayReuse(e osutil.MountEntry, desiredMap map[string]*osutil.MountEntry) = hasOptPrefix(e, "x-snapd.origin" + "=") || hasOpt(e, "x-snapd.synthetic") || (has(desiredMap, e.Dir) && unchangedIn(e, desiredMap[e.Dir]))
 
 //@ func neededChanges
+//@   guard call sort.Sort: [reuse-pass-order] arg0type == "byOvernameAndMountPoint" || arg0type == "byOriginAndMountPoint"
+//@   guard call sort.Sort@1: [current-by-overname] arg0v == current && arg0type == "byOvernameAndMountPoint"
 //@   props C28
 //@   loop 4: invariant -1 <= idx4 && idx4 < len(current)
 //@   loop 4: invariant forall id mountEntryId :: reuse[id] ==> exists p int :: 0 <= p && p <= idx4 && id == specID(current[p].Dir, current[p].Type)
